@@ -87,7 +87,7 @@ func Render(f *FileSpec) *Rendered {
 	r.nodes = append(r.nodes, nil)
 	out := &Rendered{Name: f.Name}
 	for _, it := range f.Items {
-		if it.Attr != nil || it.Block != nil {
+		if it.Attr != nil || it.Block != nil || it.Bare != "" {
 			out.InsertPoints = append(out.InsertPoints, r.off())
 		}
 		id := r.item(it, 0, 0)
@@ -200,6 +200,10 @@ func (r *renderer) item(it *Item, parent, depth int) int {
 		n.Range.End = r.off()
 		r.b.WriteString("\n")
 		return n.ID
+	case it.Bare != "":
+		r.indent(depth)
+		r.b.WriteString(it.Bare)
+		r.b.WriteString("\n")
 	case it.Comment != "":
 		r.indent(depth)
 		r.b.WriteString(it.Comment)
